@@ -204,7 +204,8 @@ func Check(re *regexp2.Regexp, s string, ns []int) (Stats, error) {
 			return st, fmt.Errorf("compat.FindAllString(n=%d): %d matches, want %d", k, len(gstr), len(wantB))
 		}
 		for i := range gstr {
-			if want := string(r[kept[i].I : kept[i].I+kept[i].L]); gstr[i] != want {
+			// like regexp, the adapter returns the bytes of the input (invalid UTF-8 is not replaced)
+			if want := s[offs[kept[i].I]:offs[kept[i].I+kept[i].L]]; gstr[i] != want {
 				return st, fmt.Errorf("compat.FindAllString(n=%d)[%d] = %q, want %q", k, i, gstr[i], want)
 			}
 		}
